@@ -109,7 +109,7 @@ Proof.
     + inversion H; subst. id_plain s t D Hpc.
     + inversion H; subst. id_plain s t D Hpc.
     + inversion H; subst. id_ssem s t S D Hpc.
-    + inversion H; subst. id_plain s t D Hpc.
+    + destruct (closed s); inversion H; subst; cbn [emit_destroyed]; id_plain s t D Hpc.
     + inversion H; subst. id_plain s t D Hpc.
     + inversion H; subst. id_sem s t G D Hpc.
     + destruct (closed s); inversion H; subst; id_plain s t D Hpc.
